@@ -124,7 +124,33 @@ def _pair_idiom(cfg, T, store_stmt, lo_atom, hi_atom, loop):
             return None, ("no range check on the next-site index: the last "
                           "site has no following peptide")
         return S, None
-    return None, "start / next site are not consecutive sites"
+    # C  for i in range(len(S) - 1): ... S[i] ... S[i + 1]
+    if lo_atom[0] == "sub" and hi_atom[0] == "sub" and \
+            lo_atom[1] == hi_atom[1] and lo_atom[2][0] == "elem":
+        S, k0, k1 = lo_atom[1], lo_atom[2], hi_atom[2]
+        d = lin(k1) + lin(k0).scale(-1)
+        if not (d.const == 1 and not d.atoms):
+            return None, "the next site is not sites[index + 1]"
+        LEN = ("call", "builtins.len", (S,), ())
+        for n_sites in (1, 2, 3, 5):
+            def atoms(t, n_sites=n_sites):
+                if t == LEN:
+                    return n_sites
+                raise KeyError(t)
+            from ..chunks import Unknown as _CU, ev as _cev
+            try:
+                got = list(_cev(k0[1], atoms))
+            except (_CU, KeyError, TypeError) as e:
+                raise AnalysisError(
+                    "the index range of the peptide loop is outside the "
+                    f"evaluated fragment: {str(e)[:80]}")
+            if got != list(range(n_sites - 1)):
+                return None, (f"with {n_sites} sites the peptide index runs "
+                              f"over {got}, not over every consecutive pair")
+        return S, None
+    raise AnalysisError(
+        "the way start and next site of a peptide are paired is written in "
+        "a form rule C18b does not read")
 
 
 def _shuffle(ctx, f):
@@ -236,6 +262,13 @@ def _shuffle(ctx, f):
             not v[3][0][2]:
         PERM = v[3][0][1]
         e = v[2]
+        # inner = w[start:end]; inner[i]  reads  w[start + i]
+        if e[0] == "sub" and e[1][0] == "sub" and e[1][2][0] == "slice" \
+                and root_name(e[1][1]) == W:
+            sl = e[1][2]
+            if sl[3] == ("const", None) and lin(sl[1]) == l_lo and \
+                    lin(sl[2]) == l_hi:
+                e = ("sub", e[1][1], ("bin", "+", e[2], sl[1]))
         if e[0] == "sub" and root_name(e[1]) == W and e[1][0] == "var":
             d = lin(e[2]) + l_lo.scale(-1)
             ok_v = d.const == 0 and [(d.terms[k], c) for k, c in
@@ -358,18 +391,20 @@ def _shuffle(ctx, f):
     # the values filed under perms[L], one reading per path through the
     # peptide loop (so that the value is seen together with the value of
     # ``reverse`` that selects it), directly or through a helper's paths
-    for v in path_variants(f.node, within=il):
+    from ..defuse import specialise
+
+    class _V:
+        pass
+    variants = []
+    for flag_ in (True, False):
+        v_ = _V()
+        v_.fnode = specialise(f.node, {p_rev: flag_})
+        v_.flag = flag_
+        variants.append(v_)
+    for v in variants:
         vdu = DefUse(prog, f, fnode=v.fnode)
         vT = Terms(vdu, phi_vars=True)
-        vflags = set()
-        for t_, o_ in v.conds:
-            tt_ = vT.of(t_)
-            while tt_[0] == "un" and tt_[1] == "not":
-                tt_, o_ = tt_[2], not o_
-            if tt_ == ("param", p_rev):
-                vflags.add(o_)
-        if len(vflags) > 1:
-            continue
+        vflags = {v.flag}
         vev = [e for e in container_events(v.fnode, vT, CFG(v.fnode))
                if root_name(e.recv) == PERMS and e.kind == "store"]
         for e in vev:
